@@ -65,7 +65,7 @@ CORPUS = [
 def cases(rng: random.Random, tier: str):
     out = [dict(c, seed=1000 + i) for i, c in enumerate(CORPUS)]
     out += K.load_corpus("C18")
-    n = 900 if tier == "quick" else 9000
+    n = 2500 if tier == "quick" else 9000
     for _ in range(n):
         big = rng.random() < (0.15 if tier == "quick" else 0.3)
         g = K.rand_admg(rng, 1, 5 if big else 4)
